@@ -127,7 +127,7 @@ BadConst(t, name, lit) == [k |-> "const", t |-> t, name |-> name, lit |-> lit, d
 
 Inj(class, site, items) == [class |-> class, site |-> site, items |-> items]
 
-Injections == <<
+HandInjections == <<
   \* 1. undefined types, at every kind of site
   Inj("reference to an undefined type", "struct field", With(iPoint, SetFieldT(PointS, 1, Nope))),
   Inj("reference to an undefined type", "message field", With(iMsg, SetFieldT(MsgM, 1, Nope))),
@@ -212,6 +212,15 @@ Injections == <<
   Inj("definition named like a primitive", "union", Base \o << Un("bool", << Br(1, St("BX", << F("z", P("bool")) >>)) >>) >>),
   Inj("definition named like a primitive", "union branch", Base \o << Un("W", << Br(1, St("date", << F("z", P("bool")) >>)) >>) >>)
 >>
+
+\* every primitive type name as the name of every kind of top-level definition
+PrimSeq == <<"bool","byte","uint8","uint16","int16","uint32","int32","uint64","int64","float32","float64","string","guid","date">>
+PrimNameInjs == FlattenSeq([i \in 1..Len(PrimSeq) |-> <<
+  Inj("definition named like a primitive", "struct named " \o PrimSeq[i], Base \o << St(PrimSeq[i], << F("z", P("bool")) >>) >>),
+  Inj("definition named like a primitive", "message named " \o PrimSeq[i], Base \o << Ms(PrimSeq[i], << FI(1, "z", P("bool")) >>) >>),
+  Inj("definition named like a primitive", "enum named " \o PrimSeq[i], Base \o << En(PrimSeq[i], "", << Mem("Q", "1", <<1,0,0,0>>) >>) >>),
+  Inj("definition named like a primitive", "union named " \o PrimSeq[i], Base \o << Un(PrimSeq[i], << Br(1, St("BX", << F("z", P("bool")) >>)) >>) >>) >>])
+Injections == HandInjections \o PrimNameInjs
 
 -----------------------------------------------------------------------------
 (* "At every applicable site": the site-dependent classes are injected       *)
